@@ -20,7 +20,7 @@ from . import _an as A
 PROP = "C05"
 # obligations of the properties this one is downstream of are obligations of this check too (vk.runner.collect_obligations)
 UPSTREAM = ["C01"]
-GEN_REGIONS = ["CoreKernels", "Analysis", "Utils", "CudaKernels", "LpsdCore", "NumpyKernels", "EntryPoints"]
+GEN_REGIONS = ["CoreKernels", "Analysis", "Utils", "CudaKernels", "LpsdCore", "NumpyKernels", "EntryPoints", "GlobalState"]
 THEOREMS = {
     # the request arithmetic of compute_single_bin as translated each run IS the model (segmentation) / the requested frequency (omega)
     "SpecKitV.Props.AnalysisGen": ["gen_single_bin_seg_eq_model", "gen_single_bin_omega_eq"],
@@ -72,6 +72,9 @@ THEOREMS = {
         "PipelineClosed.pipeline_closed_short", "PipelineClosed.pipeline_closed_sums", "PipelineClosed.pipeline_closed_single_bin_cross",
         "PipelineClosed.pipeline_closed_single_bin_auto", "PipelineClosed.pipeline_closed_single_bin_short",
         "PipelineClosed.ltfPlan_L_ge_two", "PipelineClosed.lpsdPlan_L_ge_two", "PipelineClosed.newPlan_L_ge_three", "PipelineClosed.hL_of_plan"],
+    # no state outlives a call in the files this property is anchored in (no module/class-level containers, memoisers, mutable defaults) and the
+    # decorators are exactly the audited ones (region GlobalState, re-scanned from the current source each run)
+    "SpecKitV.Props.GlobalStateGen": ["GlobalStateGen.gen_globalState_analysis", "GlobalStateGen.gen_globalState_flattop", "GlobalStateGen.gen_globalState_init"],
 }
 CONTRACTS = [
     "np.kaiser(L+1, beta)[:-1] is the DFT-even Kaiser window n -> I0(beta*sqrt(1-((n-L/2)/(L/2))^2))/I0(beta): NumPy's I0 is compared each run "
